@@ -97,12 +97,23 @@ def handleDecoded (stream : String) (b : Block) (durs : List DurDesc) (lens : Li
             | some (bitems, bD) => (s1 && hullB lens items bitems bD, true, true)
       | _ => (false, false, false)
     let expanded := lens.any (· != 1)
+    -- coverage: some source instruction expands to two items of which one's span strictly contains the other's
+    let nested : Bool := match out with
+      | .list [.atom "res", _, flat, _] =>
+        match decSchedule flat with
+        | some (items, _) =>
+          let m := firstIndices lens 0 0
+          items.any fun x => items.any fun y =>
+            x.index != y.index && sourceOf m x.index == sourceOf m y.index &&
+            decide (x.start ≤ y.start) && decide (y.stop ≤ x.stop) && decide (y.dur < x.dur)
+        | none => false
+      | _ => false
     { agree := mOut == out && extraOk, specOk, nontrivial := okFlat && L ≥ 2,
       tags := [stream, s!"len{min L 8}"] ++ (durs.map durTag).eraseDups ++
         (if okFlat then ["scheduled"] else ["no-schedule"]) ++ (if okBlock then ["block-ok"] else []) ++
         (if expanded then ["calibrated"] else []) ++ (if lens.any (· ≥ 3) then ["expansion3+"] else []) ++
         (if b.instrs.any (fun i => (frameAccesses i).any (·.2 == .read)) then ["blocking"] else []) ++
-        (if b.term.isSome then ["term"] else []) ++ extraTags,
+        (if b.term.isSome then ["term"] else []) ++ (if nested then ["nested-spans"] else []) ++ extraTags,
       detail := s!"extraOk={extraOk} model={mOut} impl={out}" }
 
 def handleCase (stream : String) (bS dursS lensS out : Sexp) : CaseResult :=
